@@ -134,7 +134,7 @@ impl ValidatedBlockHeader {
 			return Err(BlockSourceError::persistent("invalid previous block hash"));
 		}
 
-		if self.height != previous_header.height + 1 {
+		if previous_header.height.checked_add(1) != Some(self.height) {
 			return Err(BlockSourceError::persistent("invalid block height"));
 		}
 
